@@ -1,6 +1,6 @@
 SPECIFICATION Spec
 CONSTANTS
-  P = 2
+  P = 3
   B = 2
   KK = 3
   N1 = 1
@@ -8,7 +8,7 @@ CONSTANTS
   N3 = 1
   N4 = 0
   NParts <- NPartsDef
-  Clear = FALSE
+  Clear = TRUE
   Split = TRUE
   SkelBarrierOnWorld = FALSE
   RootIsLowest = TRUE
